@@ -191,13 +191,16 @@ pub fn collision_scripts() -> Vec<(&'static str, Vec<Op>)> {
         ("both-directions", vec![send(0, 0, 0, Reliable, 100), send(0, 1, 0, Reliable, 101), send(0, 0, 1, Unreliable, 3000), send(1, 1, 1, Persistent, 1500), send(1, 0, 0, Unreliable, 7), send(2, 1, 0, Reliable, 0)]),
         ("reliable-chain-2ch", vec![send(0, 0, 0, Reliable, 20), send(0, 0, 1, Reliable, 2000), send(1, 0, 0, Reliable, 22), send(1, 0, 1, Persistent, 23), send(2, 0, 0, Unreliable, 24), send(2, 0, 1, Reliable, 25)]),
         ("persistent-frag-then-reliable", vec![send(0, 0, 0, Persistent, 4400), send(0, 0, 0, Reliable, 10), send(1, 0, 0, Persistent, 1449), send(1, 0, 0, Unreliable, 1)]),
+        // a partly received multi-fragment packet is passed over by the window and its slot is reused one window later (windows 2, 4, 8)
+        ("frag-slot-reuse", vec![send(0, 0, 0, Unreliable, 3000), send(1, 0, 1, Reliable, 10), send(1, 0, 0, Unreliable, 11), send(2, 0, 1, Reliable, 12), send(3, 0, 0, Reliable, 3001), send(4, 0, 0, Unreliable, 2000), send(4, 0, 1, Persistent, 4000), send(5, 0, 0, Unreliable, 13), send(6, 0, 1, Reliable, 2001)]),
+        ("frag-slot-reuse-ts", vec![send(0, 0, 0, TimeSensitive, 4000), send(0, 0, 0, Unreliable, 2900), send(2, 0, 0, Unreliable, 2901), send(3, 0, 1, Reliable, 20), send(4, 0, 0, Reliable, 4001), send(5, 0, 1, Unreliable, 2902), send(6, 0, 0, Reliable, 21), send(7, 0, 1, Reliable, 2903)]),
         ("burst-8-unreliable-then-reliable", (0..8).map(|i| send(0, 0, 0, Unreliable, 100 + i)).chain(std::iter::once(send(1, 0, 0, Reliable, 99))).collect()),
     ]
 }
 
 pub fn cfg_grid(quick: bool) -> Vec<LwCfg> {
     let mut v = Vec::new();
-    let wins: &[(u32, u32)] = if quick { &[(4, 4), (4096, 4096)] } else { &[(2, 4), (4, 4), (4, 8), (8, 8), (4096, 4096)] };
+    let wins: &[(u32, u32)] = if quick { &[(4, 4), (2, 8), (4096, 4096)] } else { &[(2, 4), (4, 4), (4, 8), (8, 8), (2, 64), (4096, 4096)] };
     for &(pw, fw) in wins {
         let bases: Vec<([u32; 2], [u32; 2])> = vec![
             ([0, 77], [0, 1000]),
